@@ -100,7 +100,7 @@ type fillOpts struct {
 	// back equal, so a field silently excluded from the encoding is lost data
 	// unless the library documents the exclusion; C43 leaves it nil: there the
 	// tag is the type author's explicit opt-out.)
-	fillDash func(owner reflect.Type, f reflect.StructField) (documentedExclusion bool)
+	fillDash       func(owner reflect.Type, f reflect.StructField) (documentedExclusion bool)
 	steerOmitEmpty func(path string) bool
 	steered        int
 	path           []string
